@@ -73,6 +73,14 @@ def check_case(case):
         npos = exp.get('note_positions')
         hit = [e for e in at_seg if e['code'] in codes and (e['ele'] in npos if npos else e['ele'] == exp['ele'])
                and (exp.get('any_sub') or npos or e['sub'] == exp['sub'])]
+        seen_ = set()
+        for e in at_seg:
+            k_ = (e['code'], e['ele'], e['sub'], e['msg'])
+            if k_ in seen_:
+                # one fault, one report: the same message twice at one place is one report too many
+                out.fail('%s:reported-twice' % kind, 'set %s pos %s ele %s: %r twice' % (exp['st'], exp['pos'], e['ele'], (e['msg'] or '')[:120]))
+                break
+            seen_.add(k_)
         if not hit:
             near = [e for e in here if e['code'] in codes]
             where = 'wrong-coordinates' if near else 'no-such-error'
